@@ -852,27 +852,90 @@ func demuxRule(w *World, r *Report, spec *pktSpec) {
 			continue
 		}
 		info := fi.Pkg.TypesInfo
-		var sw *ast.SwitchStmt
+		// the payload selection: a switch on the protocol number, or an if/else-if chain of `tag == CONST`
+		type clause struct {
+			list []ast.Expr // nil: default
+			body []ast.Stmt
+			pos  token.Pos
+		}
+		var clauses []clause
+		var tagExpr ast.Expr
+		var selPos token.Pos
 		ast.Inspect(fi.Decl.Body, func(n ast.Node) bool {
-			if s, ok := n.(*ast.SwitchStmt); ok && s.Tag != nil && sw == nil {
-				if t := info.TypeOf(s.Tag); t != nil && isIntType(t) {
-					sw = s
+			if tagExpr != nil {
+				return false
+			}
+			switch s := n.(type) {
+			case *ast.SwitchStmt:
+				if s.Tag == nil {
+					return true
+				}
+				if t := info.TypeOf(s.Tag); t == nil || !isIntType(t) {
+					return true
+				}
+				tagExpr, selPos = s.Tag, s.Pos()
+				for _, st := range s.Body.List {
+					cc := st.(*ast.CaseClause)
+					clauses = append(clauses, clause{cc.List, cc.Body, cc.Pos()})
+				}
+				return false
+			case *ast.IfStmt:
+				// tag == CONST { … } else if tag == CONST { … } else { … } with at least two comparisons
+				var cs []clause
+				var tag ast.Expr
+				cur := s
+				for cur != nil {
+					be, ok := unparen(cur.Cond).(*ast.BinaryExpr)
+					if !ok || be.Op != token.EQL {
+						cs = nil
+						break
+					}
+					x, c := be.X, be.Y
+					if _, isC := constIntOf(info, c); !isC {
+						x, c = be.Y, be.X
+					}
+					if _, isC := constIntOf(info, c); !isC {
+						cs = nil
+						break
+					}
+					if tag == nil {
+						tag = x
+					} else if types.ExprString(tag) != types.ExprString(x) {
+						cs = nil
+						break
+					}
+					cs = append(cs, clause{[]ast.Expr{c}, cur.Body.List, cur.Pos()})
+					switch e := cur.Else.(type) {
+					case *ast.IfStmt:
+						cur = e
+					case *ast.BlockStmt:
+						cs = append(cs, clause{nil, e.List, e.Pos()})
+						cur = nil
+					default:
+						cur = nil
+					}
+				}
+				if len(cs) >= 3 && tag != nil {
+					if t := info.TypeOf(tag); t != nil && isIntType(t) {
+						tagExpr, selPos, clauses = tag, s.Pos(), cs
+						return false
+					}
 				}
 			}
 			return true
 		})
-		if sw == nil {
-			r.Fail(VViolation, "demux", fn, "", w.Pos(fi.Decl.Pos()), "no switch on a protocol number found in the decoder")
+		if tagExpr == nil {
+			r.Fail(VViolation, "demux", fn, "", w.Pos(fi.Decl.Pos()), "no switch (or if/else chain) on a protocol number found in the decoder")
 			continue
 		}
 		tagOK := false
-		tagText := types.ExprString(sw.Tag)
-		if se, ok := unparen(sw.Tag).(*ast.SelectorExpr); ok && se.Sel.Name == d.On {
+		tagText := types.ExprString(tagExpr)
+		if se, ok := unparen(tagExpr).(*ast.SelectorExpr); ok && se.Sel.Name == d.On {
 			tagOK = true
-		} else if id, ok := unparen(sw.Tag).(*ast.Ident); ok {
+		} else if id, ok := unparen(tagExpr).(*ast.Ident); ok {
 			ast.Inspect(fi.Decl.Body, func(n ast.Node) bool {
 				if as, ok := n.(*ast.AssignStmt); ok && len(as.Lhs) == 1 && len(as.Rhs) == 1 {
-					if l, ok := as.Lhs[0].(*ast.Ident); ok && info.ObjectOf(l) == info.ObjectOf(id) && as.Pos() < sw.Pos() {
+					if l, ok := as.Lhs[0].(*ast.Ident); ok && info.ObjectOf(l) == info.ObjectOf(id) && as.Pos() < selPos {
 						if se, ok := unparen(as.Rhs[0]).(*ast.SelectorExpr); ok && se.Sel.Name == d.On {
 							tagOK = true
 						}
@@ -881,18 +944,17 @@ func demuxRule(w *World, r *Report, spec *pktSpec) {
 				return true
 			})
 		}
-		pos := w.Pos(sw.Pos())
+		pos := w.Pos(selPos)
 		if tagOK {
-			r.OK("demux", fn, "tag", pos, "the switch is on "+tagText+", the "+d.On+" field of the header", true)
+			r.OK("demux", fn, "tag", pos, "the selection is on "+tagText+", the "+d.On+" field of the header", true)
 		} else {
-			r.Fail(VViolation, "demux", fn, "tag", pos, "the switch is on "+tagText+", which is not the "+d.On+" field the table names")
+			r.Fail(VViolation, "demux", fn, "tag", pos, "the selection is on "+tagText+", which is not the "+d.On+" field the table names")
 		}
 		present := map[string]bool{}
-		for _, st := range sw.Body.List {
-			cc := st.(*ast.CaseClause)
+		for _, cc := range clauses {
 			alloc := ""
 			var allocField string
-			for _, b := range cc.Body {
+			for _, b := range cc.body {
 				ast.Inspect(b, func(n ast.Node) bool {
 					as, ok := n.(*ast.AssignStmt)
 					if !ok || len(as.Lhs) != 1 || len(as.Rhs) != 1 || alloc != "" {
@@ -914,15 +976,15 @@ func demuxRule(w *World, r *Report, spec *pktSpec) {
 					return true
 				})
 			}
-			if cc.List == nil {
+			if cc.list == nil {
 				if alloc != "" && alloc != "util.Buffer" {
-					r.Fail(VViolation, "demux", fn, "default", w.Pos(cc.Pos()), "the default case allocates "+alloc+": unknown protocol numbers must fall to the opaque buffer")
+					r.Fail(VViolation, "demux", fn, "default", w.Pos(cc.pos), "the default case allocates "+alloc+": unknown protocol numbers must fall to the opaque buffer")
 				} else {
-					r.OK("demux", fn, "default", w.Pos(cc.Pos()), "unknown numbers fall to the opaque buffer", false)
+					r.OK("demux", fn, "default", w.Pos(cc.pos), "unknown numbers fall to the opaque buffer", false)
 				}
 				continue
 			}
-			for _, e := range cc.List {
+			for _, e := range cc.list {
 				c, isC := constIntOf(info, e)
 				if !isC {
 					r.Fail(VUndecided, "demux", fn, types.ExprString(e), w.Pos(e.Pos()), "case value is not a constant")
@@ -947,7 +1009,7 @@ func demuxRule(w *World, r *Report, spec *pktSpec) {
 				}
 				if mapped && alloc == want && (strings.HasSuffix(want, "HopByHopHeader") || strings.HasSuffix(want, "RoutingHeader") || strings.HasSuffix(want, "FragmentHeader")) {
 					nextOK, advOK := false, false
-					for _, b := range cc.Body {
+					for _, b := range cc.body {
 						ast.Inspect(b, func(n ast.Node) bool {
 							as, ok := n.(*ast.AssignStmt)
 							if !ok || len(as.Lhs) != 1 || len(as.Rhs) != 1 {
@@ -964,9 +1026,9 @@ func demuxRule(w *World, r *Report, spec *pktSpec) {
 						})
 					}
 					if nextOK && advOK {
-						r.OK("demux", fn, code+"/chain", w.Pos(cc.Pos()), "continues with "+allocField+".NextHeader and advances by "+allocField+".Len()", true)
+						r.OK("demux", fn, code+"/chain", w.Pos(cc.pos), "continues with "+allocField+".NextHeader and advances by "+allocField+".Len()", true)
 					} else {
-						r.Fail(VViolation, "demux", fn, code+"/chain", w.Pos(cc.Pos()), fmt.Sprintf("the extension-header case does not both continue with %s.NextHeader and advance by %s.Len() (next: %v, advance: %v)", allocField, allocField, nextOK, advOK))
+						r.Fail(VViolation, "demux", fn, code+"/chain", w.Pos(cc.pos), fmt.Sprintf("the extension-header case does not both continue with %s.NextHeader and advance by %s.Len() (next: %v, advance: %v)", allocField, allocField, nextOK, advOK))
 					}
 				}
 			}
